@@ -348,8 +348,24 @@ def gen_score(rng):
 
 
 def gen_ppar(rng):
-    return {'kind': 'ppar', 'streams': [[rng.choice(['1/2', '1/2', '1', 'i:1', '3/2', '1/4', '0', 'i:0']) for _ in range(rng.randint(1, 5))]
-                                        for _ in range(rng.randint(1, 5))]}
+    """several live streams of ONE pattern object: interleaved reads, the same object nested twice"""
+    DUR = ['1/2', '1/2', '1', 'i:1', '3/2', '1/4', '0', 'i:0']
+    sid = iter(range(100))
+    bind = lambda: ['bind', next(sid), [rng.choice(DUR) for _ in range(rng.randint(1, 4))]]
+    shared = []
+    for _ in range(rng.choice([0, 1, 1, 2])):
+        shared.append(bind() if rng.random() < 0.4 else ['par', [bind() for _ in range(rng.randint(1, 3))]])
+
+    def child():
+        r = rng.random()
+        if shared and r < 0.45: return ['ref', rng.randrange(len(shared))]
+        if r < 0.6: return ['par', [bind() if not shared or rng.random() < 0.6 else ['ref', rng.randrange(len(shared))]
+                                    for _ in range(rng.randint(1, 3))]]
+        return bind()
+    tree = ['par', [child() for _ in range(rng.randint(1, 4))]]
+    n = rng.choice([1, 2, 2, 3])
+    return {'kind': 'ppar', 'tree': tree, 'shared': shared, 'nstreams': n,
+            'order': [rng.randrange(n) for _ in range(rng.randint(0, 12))]}
 
 
 def fixed_user_scenarios():
@@ -373,6 +389,11 @@ def fixed_user_scenarios():
                    {'steps': [{'acts': [], 'ret': '2'},
                               {'acts': [['bundle', '0', 3], ['bundle', '-1/2', 4], ['bundle', None, 5]], 'ret': None}]}]},
         {'kind': 'ppar', 'streams': [['1', '1/2', '1/2'], ['1/2', '3/2'], ['1/2', '1/2', '1/2', '1/2']]},
+        # two streams of ONE Ppar object read alternately; the same Ppar object twice inside another Ppar
+        {'kind': 'ppar', 'tree': ['par', [['bind', 0, ['1', '1']], ['bind', 1, ['1/2', '1/2', '1']]]], 'shared': [],
+         'nstreams': 2, 'order': [0, 1, 0, 1, 1, 0]},
+        {'kind': 'ppar', 'tree': ['par', [['ref', 0], ['ref', 0]]], 'shared': [['par', [['bind', 0, ['1', '1/2']], ['bind', 1, ['1/2']]]]],
+         'nstreams': 1, 'order': []},
     ]
 
 
@@ -382,6 +403,28 @@ def shrink_scenario(sc, fails):
 
     def candidates(s):
         out = []
+        if s['kind'] == 'ppar' and 'tree' in s:
+            if s['nstreams'] > 1:
+                c = copy.deepcopy(s); c['nstreams'] -= 1; c['order'] = [i for i in c['order'] if i < c['nstreams']]; out.append(c)
+            if s['order']:
+                c = copy.deepcopy(s); c['order'].pop(); out.append(c)
+                c = copy.deepcopy(s); c['order'].pop(0); out.append(c)
+            kids = s['tree'][1]
+            for i in range(len(kids)):
+                if len(kids) > 1:
+                    c = copy.deepcopy(s); del c['tree'][1][i]; out.append(c)
+                if kids[i][0] == 'par' and len(kids[i][1]) > 1:
+                    for m in range(len(kids[i][1])):
+                        c = copy.deepcopy(s); del c['tree'][1][i][1][m]; out.append(c)
+            for b in [k for k in kids if k[0] == 'bind'] + [d for d in s['shared'] if d[0] == 'bind'] + \
+                     [k for d in s['shared'] + kids if d[0] == 'par' for k in d[1] if k[0] == 'bind']:
+                if len(b[2]) > 1:
+                    c = copy.deepcopy(s)
+                    for x in [k for k in c['tree'][1]] + c['shared'] + [k for d in c['shared'] + c['tree'][1] if d[0] == 'par' for k in d[1]]:
+                        if x[0] == 'bind' and x[1] == b[1]:
+                            x[2].pop()
+                    out.append(c)
+            return out
         if s['kind'] == 'ppar':
             for i in range(len(s['streams'])):
                 if len(s['streams']) > 1:
@@ -423,7 +466,7 @@ def user_scenarios(ctx, n):
             if rng.random() < 0.2:
                 scs.append(gen_clock(rng, abort=True))          # dirty state, then reset by the next one
             scs.append(gen_clock(rng))
-        elif r < 0.85: scs.append(gen_score(rng))
+        elif r < 0.78: scs.append(gen_score(rng))
         else: scs.append(gen_ppar(rng))
     return scs
 
@@ -456,6 +499,9 @@ def check_users(ctx, c, n, kind='correspondence'):
                 if any(a[0] in ('tempo', 'beats') for a in ac): c.count('user:clock-with-retime')
                 ts = [t for _, t in (r.get('log') or [])]
                 if len(set(ts)) < len(ts): c.count('user:clock-with-tied-wakeups')
+            if sc['kind'] == 'ppar':
+                if sc.get('nstreams', 1) > 1: c.count('user:ppar-several-live-streams')
+                if 'ref' in json.dumps(sc.get('tree', '')): c.count('user:ppar-same-object-nested')
             if sc['kind'] == 'score':
                 ts = [t for t, _ in (r.get('list') or [])]
                 if len(set(ts)) < len(ts): c.count('user:score-with-tied-bundles')
